@@ -48,7 +48,9 @@ def r151(ctx):
         fl = flow_of(f)
         cfg = fl.cfg
         apps = [c for c in walk_local(f) if isinstance(c, ast.Call) and isinstance(c.func, ast.Attribute) and c.func.attr == "append" and c.args]
-        apps = [c for c in apps if path_of(c.func.value) in ("new_path", "self", "new_path.phasepoints", "self.phasepoints")]
+        newnames = {n_.targets[0].id for n_ in walk_local(f) if isinstance(n_, ast.Assign) and isinstance(n_.targets[0], ast.Name) and isinstance(n_.value, ast.Call) and last_name(n_.value) in ("empty_path", "Path", "__class__")}
+        recv_ok = {"self", "self.phasepoints"} | newnames | {x + ".phasepoints" for x in newnames}
+        apps = [c for c in apps if path_of(c.func.value) in recv_ok]
         if not apps:
             ctx.bad(rid, f, f"Path.{name} adds no frames to its result")
             continue
@@ -74,6 +76,7 @@ def r151(ctx):
     f = methods["reverse"]
     fl = flow_of(f)
     cfg = fl.cfg
+    newnames_r = {n_.targets[0].id for n_ in walk_local(f) if isinstance(n_, ast.Assign) and isinstance(n_.targets[0], ast.Name) and isinstance(n_.value, ast.Call) and last_name(n_.value) in ("empty_path", "Path", "__class__")}
     nmut = 0
     for n in walk_local(f):
         recv = None
@@ -88,7 +91,7 @@ def r151(ctx):
         for kind, node, at, extra in fl.sources(recv, cfg.node_of(n)):
             if kind == "expr" and _fresh_copy(node):
                 continue
-            if kind == "iter" and "new_path.phasepoints" in ast.unparse(node.value):
+            if kind == "iter" and any(f"{x}.phasepoints" in ast.unparse(node.value) for x in newnames_r):
                 continue
             okr = False
         if okr:
